@@ -199,7 +199,7 @@ def handleC13 : Handler := fun _cfg op a impl =>
           if stub.panicsAfter then ["panicked"] else if stub.diverging then ["died"] else ["returned"]
         | _ => ["not-installed"]
       | .panic => ["panic"]
-    some { model := model, oracleOk := !isAbort v || impl == ["panicked"],
+    some { model := model, oracleOk := !isAbort v || impl != ["returned"],
            why := "an abort vector's stub returned to the interrupted program" }
   | _, _ => none
 
